@@ -36,7 +36,7 @@ SPEC = [0.0, 1e-12, 1e-6, 1e-3, 0.5, 1.0]
 
 def _cfg(tier):
     if tier == "quick":
-        return dict(ns=[2, 3], dims=[2, 3], depth=2, precs=[1e-2, 1e-8], caps=[1, 2, 64], kmax=4, inits=mps_bfs.INITIALS[:4] + ["thr_lo", "thr_hi"])
+        return dict(ns=[2, 3], dims=[2, 3], depth=2, precs=[1e-2, 1e-8], caps=[1, 2, 64], kmax=4, inits=mps_bfs.INITIALS[:4] + ["thr_lo", "thr_hi", "near_iso"])
     return dict(ns=[2, 3, 4, 6], dims=[2, 3], depth=3, precs=[1e-2, 1e-5, 1e-8], caps=[1, 2, 4, 64], kmax=5, inits=mps_bfs.INITIALS)
 
 
